@@ -1045,18 +1045,31 @@ def _builds_filter(fn: Fn, e: ast.AST) -> bool:
     return False
 
 
-def _self_sinks(view: FuncInfo) -> list[tuple[ast.AST, ast.AST]]:
-    """(statement, stored value) for every store into state reachable from `self`."""
+def _self_sinks(view: FuncInfo, fn: Fn | None = None) -> list[tuple[ast.AST, ast.AST]]:
+    """(statement, stored value) for every store into state reachable from `self`: attribute / subscript stores, setattr and
+    in-place extensions, on `self...` itself or on a local that stands for a part of it (`configuration = self._configuration`)."""
+
+    def of_self(e: ast.AST) -> bool:
+        for x in ast.walk(e):
+            if isinstance(x, ast.Name) and x.id == "self":
+                return True
+            if fn is not None and isinstance(x, ast.Name) and isinstance(x.ctx, ast.Load) and parent(x) is not None and x.id not in fn.params:
+                defs = fn.reaching(x.id, x)
+                # every value the local may hold is (a part of) the object: attribute chains / getattr on self
+                if defs and all(d.kind == "assign" and d.value is not None and isinstance(d.value, (ast.Attribute, ast.Subscript, ast.Call)) and any(isinstance(y, ast.Name) and y.id == "self" for y in ast.walk(d.value)) and not (isinstance(d.value, ast.Call) and not (isinstance(d.value.func, ast.Name) and d.value.func.id == "getattr")) for d in defs):
+                    return True
+        return False
+
     out = []
     for n in own_nodes(view.node):
         if isinstance(n, ast.Assign):
             for t in n.targets:
-                if isinstance(t, (ast.Attribute, ast.Subscript)) and any(isinstance(x, ast.Name) and x.id == "self" for x in ast.walk(t)):
+                if isinstance(t, (ast.Attribute, ast.Subscript)) and of_self(t.value):
                     out.append((n, n.value))
         elif isinstance(n, ast.Call):
-            if isinstance(n.func, ast.Name) and n.func.id == "setattr" and len(n.args) == 3 and any(isinstance(x, ast.Name) and x.id == "self" for x in ast.walk(n.args[0])):
+            if isinstance(n.func, ast.Name) and n.func.id == "setattr" and len(n.args) == 3 and of_self(n.args[0]):
                 out.append((n, n.args[2]))
-            elif isinstance(n.func, ast.Attribute) and n.func.attr in ("extend", "append", "update", "add") and n.args and any(isinstance(x, ast.Name) and x.id == "self" for x in ast.walk(n.func.value)):
+            elif isinstance(n.func, ast.Attribute) and n.func.attr in ("extend", "append", "update", "add") and n.args and of_self(n.func.value):
                 out.append((n, n.args[0]))
     return out
 
@@ -1077,7 +1090,7 @@ def _stored_filters(repo: Repo, res: Result, m: FuncInfo, what: str, translate: 
     want = f"ModuleNameRegexFilter(name={'convert_partial_match_to_regex(<name>)' if translate else '<regex>'})"
     relevant: list[tuple[ast.AST, list]] = []
     unknown: list[str] = []
-    for stmt, value in _self_sinks(view):
+    for stmt, value in _self_sinks(view, fn):
         d = co.normalise(co.describe(value))
         mine = [c for c in d.contribs if any(param in names_loaded(b.source) for b in c.binders) or (c.elt is not None and (param in names_loaded(c.elt) or _builds_filter(fn, c.elt)))]
         if mine:
